@@ -62,6 +62,8 @@ TxViol(e) ==
           \cup Check("C03", "inner-message-well-formed", mm.ok /\ mm.rsAddr = 32)
           \cup Check("C06", "requester-is-remote-console-lun-0", mm.ok => (mm.rqLun = 0 /\ mm.rqAddr % 2 = 1))
           \cup Check("C06", "responder-lun-as-specified", (mm.ok /\ Has(exp, "rslun")) => mm.rsLun = exp.rslun)
+          \cup (IF Has(exp, "prop") /\ Has(exp, "rslun") /\ exp.prop \notin {"C06", "C10"}
+                THEN Check(exp.prop, "request-goes-to-the-responder-lun-the-scenario-specifies", mm.ok /\ mm.rsLun = exp.rslun) ELSE {})
           \* C10: a retransmission is a complete, correctly addressed encoding of the same command
           \cup (IF Has(exp, "prop") /\ exp.prop = "C10"
                 THEN Check("C10", "every-transmission-correctly-addressed",
